@@ -15,7 +15,7 @@ META = dict(
     level='proof',
     explanation='per call of Pool.connect (as inherited by SQLitePool and PGPool) and OraPool.connect, for ALL recorded / current process ids: a connection '
                 'recorded under another pid is never returned and receives no call; it is parked; the pool records the current pid',
-    trusted_base=['os.getpid() is an effect returning an arbitrary integer', 'dbapi connect() / cx_Oracle.SessionPool() are stubs creating fresh recording objects'],
+    trusted_base=['os.getpid() / os.getppid() are effects returning arbitrary integers', 'dbapi connect() / cx_Oracle.SessionPool() are stubs creating fresh recording objects'],
     assumptions=['a fork INSIDE an open session (child inherits cache.connection) is outside what connect() can guarantee: not covered',
                  'visibility of committed data between the processes is the database\'s contract'],
 )
@@ -43,14 +43,16 @@ def _pool_case(cfg, values):
     I = Inputs(values)
     p0 = I.int('recorded_pid') if cfg['pid_known'] else None
     p1 = I.int('current_pid')
-    real_getpid = dp.os.getpid
+    pp = I.int('parent_pid')                        # os.getppid() is an arbitrary integer too (the unchanged code never asks; a replay must not depend on the checker's own parent)
+    real_getpid = dp.os.getpid; real_getppid = dp.os.getppid
 
     def setup(run):
         dp.os.getpid = lambda: (note('getpid'), p1)[1]
+        dp.os.getppid = lambda: (note('getppid'), pp)[1]
         dp.Pool.forked_connections = []
 
     def teardown(run):
-        dp.os.getpid = real_getpid
+        dp.os.getpid = real_getpid; dp.os.getppid = real_getppid
         dp.Pool.forked_connections = []
 
     def call():
@@ -100,17 +102,18 @@ def _pool_spec(cfg, i, path):
 
 def _ora_case(cfg, values):
     I = Inputs(values)
-    p0 = I.int('recorded_pid'); p1 = I.int('current_pid')
-    real_getpid = ora.os.getpid
+    p0 = I.int('recorded_pid'); p1 = I.int('current_pid'); pp = I.int('parent_pid')
+    real_getpid = ora.os.getpid; real_getppid = ora.os.getppid
     real_sp = cx_Oracle.SessionPool
 
     def setup(run):
         ora.os.getpid = lambda: (note('getpid'), p1)[1]
+        ora.os.getppid = lambda: (note('getppid'), pp)[1]
         ora.OraPool.forked_pools = []
         cx_Oracle.SessionPool = lambda **kw: (effect('SessionPool()', (Fault,))(), RecCon('fresh_pool'))[1]
 
     def teardown(run):
-        ora.os.getpid = real_getpid
+        ora.os.getpid = real_getpid; ora.os.getppid = real_getppid
         ora.OraPool.forked_pools = []
         cx_Oracle.SessionPool = real_sp
 
